@@ -115,11 +115,13 @@ Example C03_byte_walker_example :
         32; 32; 32; 55; 44; 10; 32; 32; 32; 32; 110; 117; 108; 108; 10; 32; 32; 93; 44; 10; 32; 32; 34; 98; 34; 58; 32; 116; 114; 117; 101; 10;
         125].
 Proof. vm_compute. repeat split. Qed.
+Print Assumptions C03_byte_walker_example.
 (* on a buffer that is not an encoding the walker answers as the code does: a failed read gives the text null, an index
    past the end panics (here: the encoding above cut after 3 bytes, and after 20 bytes, inside the key entries) *)
 Example C03_byte_walker_on_truncated_buffers :
   to_string_w (firstn 3 (enc c03_example)) = Ok [110; 117; 108; 108] /\ to_string_w (firstn 20 (enc c03_example)) = Panic.
 Proof. vm_compute. split; reflexivity. Qed.
+Print Assumptions C03_byte_walker_on_truncated_buffers.
 
 (* ---- RFC 8259 validity, judged by a declarative grammar instead of a sample-based external parser.
    JsonGrammar.rfc_text is the RFC 8259 grammar with denotations, written from the RFC with no relaxation (white space =
